@@ -6,10 +6,13 @@ CONSTANTS
   MaxTape = 4
   Chunks = {"c1"}
   AttrVals = {1}
+  Handles = {}
+  HandleFlags = {}
   MaxContent = 1
   RS = 4
   Depth = 0
   RODepth = 0
+  HBias = 0
   OkBias = 0
   Shape <- MCShape
   Flags <- MCFlags
